@@ -192,24 +192,23 @@ def _one_result(ctx, f, name, ret, call, defst):
              "a tensor with a non-zero default comes back with default 0")
         # formats
         okf = None
-        for lp in f.own_nodes():
-            if isinstance(lp, ast.For) and \
-                    text(lp.iter).replace(" ", "") == "%s.getRankIds()" % R:
-                st = lp
-                if ret in g.reachable(defst, avoid={st}):
-                    continue
-                rid = text(lp.target)
-                sets = [c for c in _walk(lp.body) if isinstance(c, ast.Call)
-                        and text(c.func) == "%s.setFormat" % R]
-                good = sets and all(
-                    len(c.args) == 2 and text(c.args[0]) == rid and (
-                        text(c.args[1]).replace(" ", "").startswith("self.getFormat(")
-                        or (isinstance(c.args[1], ast.Constant) and
-                            c.args[1].value == "C")) for c in sets)
-                from_operand = any(text(c.args[1]).replace(" ", "").startswith(
-                    "self.getFormat(") for c in sets if len(c.args) == 2)
-                if good and from_operand:
-                    okf = lp
+        for lp in _format_loops(ctx, f, R):
+            if ret not in g.reachable(defst, avoid={lp}):
+                okf = lp
+        if okf is None:
+            # ... or through a method of the operand handed the result
+            for c in f.own_nodes():
+                if isinstance(c, ast.Call) and isinstance(c.func, ast.Attribute) and \
+                        text(c.func.value) == "self" and len(c.args) == 1 and \
+                        not c.keywords and text(c.args[0]) == R:
+                    h = ctx.prog.cls("Tensor").methods.get(c.func.attr)
+                    st = enclosing_stmt(c)
+                    if h is None or len(h.params) != 2 or h.params[0] != "self" or \
+                            ret in g.reachable(defst, avoid={st}):
+                        continue
+                    if any(lp in h.body for lp in _format_loops(ctx, h, h.params[1])):
+                        ctx.consulted.add(h.module.rel)
+                        okf = c
         need("per-rank formats", okf, "an uncompressed rank comes back compressed")
         # shape provenance
         sh = kw.get("shape")
@@ -239,6 +238,42 @@ def _one_result(ctx, f, name, ret, call, defst):
             ctx.bad("C14.R1", f, call, "Tensor.%s's result rank ids are not "
                     "derived from the operand's rank ids" % name,
                     text_="Tensor.%s rank ids" % name)
+
+
+def _format_loops(ctx, f, R):
+    """Loops of `f` over R.getRankIds() that set the format of every rank
+    of R to the operand's format of that rank (self.getFormat(..)) or to the
+    compressed default 'C', at least one alternative being the operand's."""
+    out = []
+    for lp in f.own_nodes():
+        if not (isinstance(lp, ast.For) and
+                text(lp.iter).replace(" ", "") == "%s.getRankIds()" % R):
+            continue
+        rid = text(lp.target)
+        sets = [c for c in _walk(lp.body) if isinstance(c, ast.Call)
+                and text(c.func) == "%s.setFormat" % R]
+        vals = []
+        good = bool(sets)
+        for c in sets:
+            if len(c.args) != 2 or text(c.args[0]) != rid:
+                good = False
+                continue
+            a = c.args[1]
+            if isinstance(a, ast.Name):
+                facts, is_param = ctx.ty.facts_at(f, a.id, a)
+                if is_param or not facts or any(fa.kind != "expr" or fa.path for fa in facts):
+                    good = False
+                    continue
+                vals += [fa.value for fa in facts]
+            else:
+                vals.append(a)
+        for v in vals:
+            if not (text(v).replace(" ", "").startswith("self.getFormat(") or
+                    (isinstance(v, ast.Constant) and v.value == "C")):
+                good = False
+        if good and any(text(v).replace(" ", "").startswith("self.getFormat(") for v in vals):
+            out.append(lp)
+    return out
 
 
 def _renamings(ctx):
@@ -324,9 +359,17 @@ def lazy_builders(ctx):
         if default is not None:
             ds = [x for x in pat.calls(f, attr="_setDefault")
                   if text(x.func.value) == R]
-            if ds and ds[0].args and pat.msearch(
-                    text(ds[0].args[0]).replace(" ", "").replace('"', "'"),
-                    default, full=True) is not None:
+            okd_ = ds and ds[0].args and pat.msearch(
+                text(ds[0].args[0]).replace(" ", "").replace('"', "'"),
+                default, full=True) is not None
+            if ds and ds[0].args and not okd_ and "$A" in default:
+                # the same sequence, spelled differently
+                want_seg = pat.seq_segments(ast.parse(
+                    default.replace("$A", "A_").replace("for", " for ")
+                    .replace("in", " in "), mode="eval").body)
+                okd_ = want_seg is not None and \
+                    pat.seq_segments(ds[0].args[0]) == want_seg
+            if okd_:
                 ctx.ok("C14.R2", f, ds[0], "default = %s" % default)
             else:
                 ctx.bad("C14.R2", f, c, "%s's lazy result gets default `%s`; "
